@@ -32,7 +32,7 @@ KINDS: list[tuple[str, str, dict[str, Any]]] = [
     ("switch(reset_after=5)", "sw", {"reset_after": 5}),
     ("switch(reset_after=5,invert)", "sw", {"reset_after": 5, "invert": True}),
 ]
-EVENTS = ["on", "off", "none", "on-response", "user-on"]
+EVENTS = ["on", "off", "none", "on-response", "user-on", "link-down", "link-up"]
 
 
 class LoopClock:
@@ -45,9 +45,10 @@ class LoopClock:
 
 def events_for(kind: int) -> list[int]:
     cls = KINDS[kind][1]
+    # (connection loss / return is reported to the task registry; timers of these devices do not depend on it)
     if cls == "sw":
-        return [0, 1, 2, 4]
-    return [0, 1, 2, 3] if "context_timeout" not in KINDS[kind][2] else [0, 1, 2]
+        return [0, 1, 2, 4, 5, 6]
+    return [0, 1, 2, 3, 5, 6] if "context_timeout" not in KINDS[kind][2] else [0, 1, 2, 5, 6]
 
 
 STATES: set[Any] = set()
@@ -133,6 +134,12 @@ def run_case(kind: int, seq: tuple[tuple[int, int], ...]) -> list[tuple[str, str
                 ev = EVENTS[ei]
                 trace.append(f"+{float(ADV[ai])}s {ev}")
                 if ev == "none":
+                    continue
+                if ev in ("link-down", "link-up"):
+                    (w.disconnect if ev == "link-down" else w.connect)()
+                    w.loop.settle()
+                    ref_advance(now)
+                    observe(f"after {ev} at t+{float(now - 1024)}")
                     continue
                 if ev == "user-on":
                     t = w.spawn(dev.set_on(), name="harness-user")
